@@ -95,7 +95,7 @@ AXES_DECL = [
     ("ca.sound_events", _L, 0, 1, 2, ANN), ("ca.sequences", _L, 0, 1, 2, ANN),
     ("ca.tags", _L, 0, 0, 2, ANN), ("ca.notes", _L, 0, 0, 2, ANN),
     # ---- predictions
-    ("ptag.score", (1.0, 0.25, 0.0), 1.0, 1.0, 0.25, PRED),
+    ("ptag.score", (1.0, 0.25, 0.0), 1.0, 1.0, 0.25, PRED), ("ptag.repeat", _B, 0, 0, 0, PRED),
     ("sep.score", (1.0, 0.5, 0.0), 1.0, 1.0, 0.5, PRED), ("sep.tags", _L, 0, 0, 2, PRED),
     ("sqp.score", (1.0, 0.5), 1.0, 1.0, 0.5, PRED), ("sqp.tags", _L, 0, 0, 2, PRED),
     ("cp.sound_events", _L, 0, 1, 2, PRED), ("cp.sequences", _L, 0, 1, 2, PRED),
@@ -225,7 +225,11 @@ class Universe:
 
     def ptags(self, site, n):
         s = self.c["ptag.score"]
-        return [data.PredictedTag(tag=self.tag(site, i), score=s if i == 0 else 0.75) for i in range(n)]
+        out = [data.PredictedTag(tag=self.tag(site, i), score=s if i == 0 else 0.75) for i in range(n)]
+        if self.c["ptag.repeat"] and n:
+            # the first tag once more, last in the list, with another score (a list of predicted tags is a list, not a mapping)
+            out.append(data.PredictedTag(tag=self.tag(site, 0), score=0.875))
+        return out
 
     def features(self, site, n):
         if self.c["feat.zero_value"] == 1:
